@@ -309,6 +309,10 @@ func (a Atom) String() string {
 // NormAtom normalises condition v taken with truth value val.
 func NormAtom(v ssa.Value, val bool) Atom {
 	for {
+		// a condition that is the result of a helper is the expression the helper returned on this path
+		if defaultResolver != nil {
+			v = defaultResolver(v)
+		}
 		u, ok := v.(*ssa.UnOp)
 		if !ok || u.Op != token.NOT {
 			break
